@@ -62,7 +62,7 @@ def run(ck):
     rnd = random.Random(ck.seed)
     corp = [s for s in chy.corpus() if len(s) <= 32]
     special = ['CCCC', 'C1CC1', 'C1CCC1', 'c1ccccc1', 'CC(C)(C)C', 'C1CC12CC2', '[Na+].[Cl-]', 'CC(=O)[O-]', '[13CH4]', 'C[CH2]', 'C=C=C', 'C#CC#C', 'OCCO', 'C1=CC=C1', 'CCOCC', 'c1ccc2ccccc2c1',
-               'FC(F)(F)F', 'C', 'CC', 'C[N+](C)(C)C', 'O=C=O', 'C1CC2CC1C2']
+               'FC(F)(F)F', 'C', 'CC', 'CC(=O)[O-].[Na+]', '[K+].[OH-]', 'O', 'C[N+](C)(C)C', 'O=C=O', 'C1CC2CC1C2']
     sel = chy.pick(corp, 70 if ck.quick else 900, ck.seed) + special
     grid = [(1, 3, 4, 10, 2), (1, 4, 4, 10, 2), (2, 4, 0, 8, 1), (1, 2, 1, 6, 3), (3, 5, 2, 12, 4), (1, 5, 5, 9, 2), (2, 2, 3, 7, 2), (1, 6, 4, 11, 2), (4, 4, 4, 10, 0), (1, 1, 4, 10, 2)]
     cases = []
